@@ -514,6 +514,80 @@ REFIT["linear_model.Ridge2FoldCV"] = (lambda: Ridge2FoldCV(alphas=[1e-3, 1e-1], 
 REFIT["linear_model.OrthogonalRegression(projector)"] = (lambda: OrthogonalRegression(), lambda e, d, opt: e.fit(d["X"], d["Y"]))
 REFIT["linear_model.OrthogonalRegression(padded)"] = (lambda: OrthogonalRegression(use_orthogonal_projector=False), lambda e, d, opt: e.fit(d["X"], d["Y"]))
 REFIT["clustering.QuickShift(gabriel)"] = (lambda: QuickShift(gabriel_shell=2), lambda e, d, opt: e.fit(d["X"][:, :2], samples_weight=d["w"]))
+# entries may carry a third element: probe(est, d) -> dict of outputs compared with the fresh estimator's (this is how stale
+# private caches become visible); estimator-valued constructor arguments are created by the factory, so the estimator under
+# test re-uses ONE regressor object across its whole history while the fresh model gets a new one
+from sklearn.linear_model import LinearRegression  # noqa: E402
+
+
+def _probe_sel(e, d):
+    out = {"support": np.asarray(e.get_support())}
+    if hasattr(e, "get_select_distance"):
+        out["select_distance"] = np.asarray(e.get_select_distance(), float)
+    return out
+
+
+for _k in list(REFIT):
+    if _k.startswith(("feature_selection.", "sample_selection.")) and not _k.endswith("DirectionalConvexHull"):
+        REFIT[_k] = REFIT[_k] + (_probe_sel,)
+
+REFIT["feature_selection.FPS(relative threshold)"] = (
+    lambda: FS.FPS(n_to_select=4, score_threshold=0.2, score_threshold_type="relative"), lambda e, d, opt: e.fit(d["X"] * (1.0 if opt else 50.0)), _probe_sel)
+REFIT["sample_selection.CUR(relative threshold)"] = (
+    lambda: SS.CUR(n_to_select=4, score_threshold=0.3, score_threshold_type="relative"), lambda e, d, opt: e.fit(d["X"] * (1.0 if opt else 0.02)), _probe_sel)
+REFIT["sample_selection.PCovCUR(absolute threshold)"] = (
+    lambda: SS.PCovCUR(n_to_select=4, score_threshold=1e-3), lambda e, d, opt: e.fit(d["X"], d["y"]), _probe_sel)
+REFIT["sample_selection.FPS(initialize=random)"] = (
+    lambda: SS.FPS(n_to_select=3, initialize="random", random_state=3), lambda e, d, opt: e.fit(d["X"]), _probe_sel)
+REFIT["feature_selection.PCovFPS(initialize=random)"] = (
+    lambda: FS.PCovFPS(n_to_select=3, initialize="random", random_state=5), lambda e, d, opt: e.fit(d["X"], d["y"]), _probe_sel)
+REFIT["sample_selection.VoronoiFPS(initialize=random)"] = (
+    lambda: SS.VoronoiFPS(n_to_select=3, initialize="random", random_state=2, full_fraction=0.7), lambda e, d, opt: e.fit(d["X"]), _probe_sel)
+
+
+def _probe_pcovr(e, d):
+    return {"transform": e.transform(d["X"]), "predict": np.asarray(e.predict(d["X"])), "score": e.score(d["X"], d["Y"] if e.pty_.ndim == 2 else d["y"])}
+
+
+REFIT["decomposition.PCovR(feature)"] = REFIT["decomposition.PCovR(feature)"] + (_probe_pcovr,)
+REFIT["decomposition.PCovR(sample)"] = REFIT["decomposition.PCovR(sample)"] + (_probe_pcovr,)
+REFIT["decomposition.PCovR(own Ridge regressor)"] = (
+    lambda: PCovR(n_components=2, mixing=0.3, regressor=Ridge(alpha=0.1, fit_intercept=False)), lambda e, d, opt: e.fit(d["X"], d["Y"] if opt else d["y"]), _probe_pcovr)
+REFIT["decomposition.PCovR(own LinearRegression, sample space)"] = (
+    lambda: PCovR(n_components=2, mixing=0.0, space="sample", regressor=LinearRegression(fit_intercept=False)), lambda e, d, opt: e.fit(d["X"], d["Y"]), _probe_pcovr)
+
+
+def _probe_kpcovr(e, d):
+    return {"transform": e.transform(d["X"]), "predict": np.asarray(e.predict(d["X"]))}
+
+
+REFIT["decomposition.KernelPCovR"] = REFIT["decomposition.KernelPCovR"] + (_probe_kpcovr,)
+REFIT["decomposition.KernelPCovR(own KernelRidge regressor)"] = (
+    lambda: KernelPCovR(n_components=2, kernel="rbf", gamma=0.2, regressor=KernelRidge(alpha=0.1, kernel="rbf", gamma=0.2)),
+    lambda e, d, opt: e.fit(d["X"], d["Y"]), _probe_kpcovr)
+REFIT["linear_model.OrthogonalRegression(own LinearRegression)"] = (
+    lambda: OrthogonalRegression(linear_estimator=LinearRegression(fit_intercept=False)), lambda e, d, opt: e.fit(d["X"], d["Y"]),
+    lambda e, d: {"predict": e.predict(d["X"])})
+REFIT["linear_model.OrthogonalRegression(own Ridge)"] = (
+    lambda: OrthogonalRegression(linear_estimator=Ridge(alpha=1e-8, fit_intercept=False)), lambda e, d, opt: e.fit(d["X"], d["Y"]),
+    lambda e, d: {"predict": e.predict(d["X"])})
+REFIT["linear_model.Ridge2FoldCV"] = REFIT["linear_model.Ridge2FoldCV"] + (lambda e, d: {"predict": e.predict(d["X"])},)
+REFIT["preprocessing.StandardFlexibleScaler"] = REFIT["preprocessing.StandardFlexibleScaler"] + (lambda e, d: {"transform": e.transform(d["X"])},)
+REFIT["preprocessing.KernelNormalizer"] = REFIT["preprocessing.KernelNormalizer"] + (lambda e, d: {"transform": e.transform(d["X"][:3] @ d["X"].T)},)
+
+_KDE_DESC = np.random.default_rng(123).normal(size=(40, 2)) * np.array([1.0, 0.4]) + np.array([[0.0, 0.0]] * 20 + [[3.0, 1.0]] * 20)
+
+
+def _kde_fit(e, d, opt):
+    idx = np.random.default_rng(d["n"] * 1000 + int(abs(d["X"][0, 0]) * 1e6) % 997).permutation(40)[: 5 if opt else 7]
+    return e.fit(_KDE_DESC[idx].copy())
+
+
+REFIT["neighbors.SparseKDE"] = (lambda: SparseKDE(_KDE_DESC.copy(), None, fpoints=0.4), _kde_fit,
+                                lambda e, d: {"score_samples": e.score_samples(_KDE_DESC[::7] + 0.05), "score": e.score(_KDE_DESC[::9] + 0.1)})
+REFIT["neighbors.SparseKDE(fspread, weights)"] = (
+    lambda: SparseKDE(_KDE_DESC.copy(), np.linspace(1, 2, 40), fspread=0.6), _kde_fit,
+    lambda e, d: {"score_samples": e.score_samples(_KDE_DESC[::7] + 0.05)})
 REFIT_NAMES = sorted(REFIT)
 
 
@@ -625,7 +699,8 @@ def _mut_sub(name, mutated):
 
 def exec_refit(case, ctx):
     name = case["est"]
-    factory, fit = REFIT[name]
+    factory, fit = REFIT[name][:2]
+    probe = REFIT[name][2] if len(REFIT[name]) > 2 else None
     ctx.cls("refit=" + name, "steps=%d" % len(case["steps"]))
     est = factory()
     for i, (seed, size, opt) in enumerate(case["steps"]):
@@ -633,6 +708,7 @@ def exec_refit(case, ctx):
         d = data(seed, n, m)
         try:
             r = fit(est, d, opt)
+            out = probe(est, d) if probe else None
         except Exception as e:  # noqa: BLE001
             from vf.core import innermost_frame
             ctx.fail("exception:refit", "%s: fit #%d (%s, optional=%s) after %s raised %s: %s @ %s"
@@ -640,8 +716,13 @@ def exec_refit(case, ctx):
             return
         ctx.true("fit-returns-self", r is est, "%s.fit returned %s" % (name, type(r).__name__))
         fresh = factory()
-        fit(fresh, data(seed, n, m), opt)
+        d2 = data(seed, n, m)
+        fit(fresh, d2, opt)
         compare_estimators(ctx, "refit-state", fresh, est)
+        if probe and not ctx.problems:
+            ref = probe(fresh, d2)
+            for k in ref:
+                compare_state(ctx, "refit-behaviour:" + k, ref[k], out[k], "%s after fit #%d" % (k, i))
         if ctx.problems:
             return
     ctx.nontrivial = True
@@ -649,7 +730,7 @@ def exec_refit(case, ctx):
 
 def exec_repeat(case, ctx):
     name = case["est"]
-    factory, fit = REFIT[name]
+    factory, fit = REFIT[name][:2]
     n, m = SIZES[case["size"]]
     ctx.cls("repeat=" + name)
     with ctx.lib("fit-a"):
@@ -664,9 +745,7 @@ def exec_repeat(case, ctx):
     if name.startswith("feature_selection"):
         with ctx.lib("fit_transform"):
             ft = factory().fit_transform(d["X"], d["y"])
-            t = a.transform(d["X"]) if (name.endswith("PCovFPS") or name.endswith("PCovCUR") or case["opt"]) else factory().fit(d["X"]).transform(d["X"])
-            if not (name.endswith("PCovFPS") or name.endswith("PCovCUR") or case["opt"]):
-                ft = factory().fit_transform(d["X"])
+            t = factory().fit(d["X"], d["y"]).transform(d["X"])
         ctx.close("fit_transform==fit+transform", ft, t, 0.0, name)
     ctx.nontrivial = True
 
